@@ -43,6 +43,10 @@ CHECKS = {
    technique="runtime monitoring: jail-snapshot monitor under dry-run + report monitor (plain output + per-root counts cross-checked against a real Mkdir's snapshot delta) + accept/reject differential between dry run and real run",
    text="Exhaustive small forests and random forests (a third with path-hostile names) x extension lists go through Output+dry-run, MkdirFromMarkdown+dry-run, MkdirFromRoot+dry-run and Verify/Walk with a stray dry-run option, simple and massive: the jail must be unchanged, the report must be the plain output followed per root by counts equal to what a real Mkdir created in a second jail, and dry-run must accept exactly the trees the real run accepts as far as names are concerned.",
    note="Colour disabled via fatih/color's NoColor; a real-run ErrExistPath (e.g. a root named '.') is not a name rejection; massive reports compared as exact block cover."),
+ "C03": dict(level="exploration", design="DESIGN.md §4 C03",
+   technique="runtime monitoring: relational monitor running each From-Root operation and its From-Markdown counterpart (and alias) on the same tree and comparing bytes, visit sequences, jail snapshots and error classes; pointer-identity monitor for Add",
+   text="Every single-root labeled tree up to 5/6 nodes, built by four Add orders with repeated Adds of existing names, and 3k/50k random trees with hostile names: text (3 branch tuples), JSON, YAML, TOML, walk, iterator, mkdir, verify and dry-run through the From-Root family must equal the From-Markdown family's result for a spelling of the same tree; Add of an existing name must return the very same node; nil and non-root nodes must yield ErrNilNode/ErrNotRoot through all 12 entry points with zero bytes written and an unchanged jail; aliases must equal their replacements.",
+   note="Massive is compared in C10. LF/CR/empty names only on the From-Root side (compared across From-Root operations and aliases). MkdirFromRoot+dry-run is compared with Output+dry-run (the CLI route), not with MkdirFromMarkdown+dry-run (known finding KF-C09-1)."),
 }
 PENDING = {}
 ids = [json.loads(l)["id"] for l in open("/verif/properties.jsonl")]
